@@ -29,6 +29,7 @@ Record inst := mk_inst {
   i_vols : list Q;                     (* sd.cell_volumes *)
   i_inc : list (list (nat * Q));       (* per cell: (face, sign) *)
   i_bnd : list bool;                   (* face is on the boundary *)
+  i_planar : bool;                     (* all faces planar: the first-moment identity is expected *)
   i_drows : list row;                  (* [displacement_divergence | boundary_displacement_divergence] *)
   i_grows : list row                   (* scalar_gradient, nd*nf rows *)
 }.
@@ -108,7 +109,7 @@ Definition shape_ok (I : inst) : bool :=
   && (length (i_drows I) =? i_nc I) && (length (i_grows I) =? i_nd I * i_nf I).
 
 Definition check (tol : Q) (I : inst) : bool :=
-  shape_ok I && div_ok tol I && grad_ok tol I && geo_ok tol I.
+  shape_ok I && div_ok tol I && grad_ok tol I && (if i_planar I then geo_ok tol I else true).
 
 Definition check_diag (tol : Q) (I : inst) :=
   (shape_ok I, div_ok tol I, grad_ok tol I, geo_ok tol I).
@@ -140,3 +141,12 @@ Definition trace (A : m3) : Q := x0 (fst (fst A)) + x1 (snd (fst A)) + x2 (snd A
 (* sum_f s_f u(x_f) . n_f  for  u = A x + b *)
 Definition face_div (fs : list face) (A : m3) (b : v3) : Q :=
   fsum fs (fun f => vdot (vadd (mulmv A (f_x f)) b) (f_n f)).
+
+(* component access and the geometric moments of one cell *)
+Definition cmp (i : nat) (v : v3) : Q :=
+  match i with 0%nat => x0 v | 1%nat => x1 v | _ => x2 v end.
+Definition mrow (i : nat) (A : m3) : v3 :=
+  match i with 0%nat => fst (fst A) | 1%nat => snd (fst A) | _ => snd A end.
+(* N_i = sum_f s n_{f,i} ;  M_ij = sum_f s x_{f,j} n_{f,i} *)
+Definition Nrm (fs : list face) (i : nat) : Q := fsum fs (fun f => cmp i (f_n f)).
+Definition Mom (fs : list face) (i j : nat) : Q := fsum fs (fun f => cmp j (f_x f) * cmp i (f_n f)).
